@@ -1005,6 +1005,14 @@ func c29Check(c *stat.Collector, rt stat.Fataler, plan c29Plan, run c29Run) (nt 
 						laterUnclean = true
 					}
 				}
+				// a call that acquired this connection but could not even write its commands (deadline reached while it
+				// waited for the pool) closes it without the server ever seeing that call
+				for _, s2 := range sums {
+					if !s2.clean && s2.conn < 0 && s2.o.StartUs <= ci.closeUs && ci.closeUs <= s2.o.EndUs {
+						laterUnclean = true
+						class["closed-by-call-that-could-not-start"] = true
+					}
+				}
 				if !laterUnclean {
 					fail("C29.recycled-when-clean", fmt.Sprintf("%s: every reply was consumed, yet the connection was closed at +%dus (%s) instead of being kept in the pool", where, ci.closeUs, ci.closeNote))
 				}
@@ -1016,6 +1024,9 @@ func c29Check(c *stat.Collector, rt stat.Fataler, plan c29Plan, run c29Run) (nt 
 		var prev *opSummary
 		for i := range sums {
 			s := &sums[i]
+			if s.conn < 0 && !s.clean {
+				prev = nil // it may have closed the pooled connection it was given
+			}
 			if s.conn < 0 || !isStreamConn(s.conn) {
 				continue
 			}
